@@ -221,57 +221,12 @@ pub fn run(tier: Tier) -> i32 {
     }
     let ck = Ck { rep: &rep, mgr: mgr_std() };
     // representative subset: spread over the list
-    let nrep = if tier.thorough() { 24 } else { 6 };
+    let nrep = if tier.thorough() { 24 } else { 4 };
     let step = (states.len() / nrep).max(1);
     let reps: Vec<usize> = (0..states.len()).step_by(step).collect();
 
     // the directed and corpus-based families run first: they are the cheapest and the only ones that reach deep states;
     // the big sweep (a) comes last so that a wall cap under load cuts the broad part, not the deep ones
-    // (b) headers x lengths x fillers
-    let gls: Vec<usize> = (0..=40).chain(4080..=4095).collect();
-    let mut headers: Vec<u16> = vec![];
-    for top in 0..16u16 {
-        for &g in &gls {
-            headers.push((top << 12) | g as u16);
-        }
-    }
-    let b_states: Vec<usize> = if tier.thorough() { (0..states.len()).collect() } else { (0..states.len()).step_by(5).collect() };
-    let b_jobs: Vec<(usize, u16)> = b_states.iter().flat_map(|&si| headers.iter().map(move |&h| (si, h))).collect();
-    let run_b = |jobs: &[(usize, u16)]| {
-        jobs.par_chunks(64).for_each(|chunk| {
-            if rep.over_time() {
-                rep.cap("(b): wall cap");
-                return;
-            }
-            let mut acc = Acc::default();
-            for &(si, h) in chunk {
-                let s = &states[si];
-                let pkt = (h & 0x0FFF) as usize + 2;
-                let mut lens: Vec<usize> = (2..=24).collect();
-                lens.extend([pkt.saturating_sub(1).max(2), pkt, pkt + 1, pkt + 9]);
-                lens.sort();
-                lens.dedup();
-                for len in lens {
-                    for f in 0..N_FILL {
-                        let mut buf = vec![0u8; len];
-                        buf[0] = (h >> 8) as u8;
-                        buf[1] = h as u8;
-                        tail_fill(f, &mut buf);
-                        ck.one(&mut acc, s, si, &buf, "b");
-                    }
-                }
-            }
-            rep.merge(acc);
-        });
-    };
-    run_b(&b_jobs);
-    rep.part(json!({"part":"(b) headers x lengths x fillers","headers":headers.len(),"fillers":N_FILL,"in_states":b_states.len()}));
-    if tier.thorough() {
-        let all: Vec<(usize, u16)> = reps.iter().take(12).flat_map(|&si| (0..=0xFFFFu32).map(move |h| (si, h as u16))).collect();
-        run_b(&all);
-        rep.part(json!({"part":"(b') all 65536 headers","in_states":12}));
-    }
-
     // (c) corpus truncations and single-byte replacements
     let corp = corpus();
     let c_jobs: Vec<(usize, usize)> = (0..states.len()).flat_map(|si| (0..corp.len()).map(move |ci| (si, ci))).collect();
@@ -330,6 +285,51 @@ pub fn run(tier: Tier) -> i32 {
     });
     rep.part(json!({"part":"(d) every re-announced GSE length of every corpus packet","corpus_packets":corp.len(),"in_states":d_states.len()}));
     directed_large_storage(&rep, &ck);
+    // (b) headers x lengths x fillers
+    let gls: Vec<usize> = (0..=40).chain(4080..=4095).collect();
+    let mut headers: Vec<u16> = vec![];
+    for top in 0..16u16 {
+        for &g in &gls {
+            headers.push((top << 12) | g as u16);
+        }
+    }
+    let b_states: Vec<usize> = if tier.thorough() { (0..states.len()).collect() } else { (0..states.len()).step_by(7).collect() };
+    let b_jobs: Vec<(usize, u16)> = b_states.iter().flat_map(|&si| headers.iter().map(move |&h| (si, h))).collect();
+    let run_b = |jobs: &[(usize, u16)]| {
+        jobs.par_chunks(64).for_each(|chunk| {
+            if rep.over_time() {
+                rep.cap("(b): wall cap");
+                return;
+            }
+            let mut acc = Acc::default();
+            for &(si, h) in chunk {
+                let s = &states[si];
+                let pkt = (h & 0x0FFF) as usize + 2;
+                let mut lens: Vec<usize> = (2..=24).collect();
+                lens.extend([pkt.saturating_sub(1).max(2), pkt, pkt + 1, pkt + 9]);
+                lens.sort();
+                lens.dedup();
+                for len in lens {
+                    for f in 0..N_FILL {
+                        let mut buf = vec![0u8; len];
+                        buf[0] = (h >> 8) as u8;
+                        buf[1] = h as u8;
+                        tail_fill(f, &mut buf);
+                        ck.one(&mut acc, s, si, &buf, "b");
+                    }
+                }
+            }
+            rep.merge(acc);
+        });
+    };
+    run_b(&b_jobs);
+    rep.part(json!({"part":"(b) headers x lengths x fillers","headers":headers.len(),"fillers":N_FILL,"in_states":b_states.len()}));
+    if tier.thorough() {
+        let all: Vec<(usize, u16)> = reps.iter().take(12).flat_map(|&si| (0..=0xFFFFu32).map(move |h| (si, h as u16))).collect();
+        run_b(&all);
+        rep.part(json!({"part":"(b') all 65536 headers","in_states":12}));
+    }
+
     // (a) all byte strings of length 0..=3
     let a_states: Vec<usize> = if tier.thorough() { (0..states.len()).step_by((states.len() / 60).max(1)).collect() } else { reps.clone() };
     let jobs: Vec<(usize, u32)> = a_states.iter().flat_map(|&si| (0..=255u32).map(move |b0| (si, b0))).collect();
